@@ -302,7 +302,13 @@ def r045_counts(ctx):
     npos, nneg = mk("sub", cnt, const(3)), mk("sub", cnt, const(4))
     ex = calls_to(r, EXTEND)
     ctx.floor("R04.5", "confusion-matrix constructions in the sweep", len(ex), 2)
-    cvar = A2.at(ex[0], "count")
+    # the per-label counter: the list indexed with 0 / 1 in the count arguments (whatever it is called)
+    cvar = None
+    for e_ in ex:
+        for _k, v_ in e_.data["kwargs"]:
+            if v_.op == "sub" and v_.args[1] in (const(0), const(1)):
+                cvar = v_.args[0]
+    ctx.require(cvar is not None, "anchor vanished: per-label counter in the threshold sweep")
     bb = {"c": cvar, "P": npos, "N": nneg}
     want_actual = {"false_positives": "c[0]", "true_positives": "c[1]", "true_negatives": "N - c[0]", "false_negatives": "P - c[1]"}
     want_flip = {"false_positives": "N - c[0]", "true_positives": "P - c[1]", "true_negatives": "c[0]", "false_negatives": "c[1]"}
@@ -375,13 +381,15 @@ def r045_counts(ctx):
     ri = A3.run(cls + ".__init__", cls_ctx=cls)
     ok = ri.final.heap.get((ri.self_term, "_operator")) is ri.params["operator"] and ri.final.heap.get((ri.self_term, "_threshold")) is ri.params["threshold"]
     ctx.ob("R04.5", ri.func, None, ok, "operator and threshold are stored unchanged", construct="threshold operation fields")
-    # midpoint thresholds
-    th = [e for e in r.events if e.kind == "store" and e.data.get("tkind") == "name" and e.data["name"] == "threshold" and e.func == fq]
-    mids = [e for e in th if A2.C.canon(e.data["value"]).op == "rat"]
-    okm = False
-    for e in mids:
-        rat = A2.C._as_rat(A2.C.canon(e.data["value"]))
-        okm = all(c == rat.num.terms[next(iter(rat.num.terms))] for c in rat.num.terms.values()) and len(rat.num.terms) == 2 \
-            and list(rat.num.terms.values())[0] == 0.5 or okm
-    ctx.ob("R04.5", fq, mids[0].node if mids else None, okm, "thresholds are midpoints between consecutive distinct scores",
+    # midpoint thresholds: some local of the sweep is (a + b) / 2 of two score reads
+    from fractions import Fraction
+    cands = [e for e in r.events if e.kind == "store" and e.data.get("tkind") == "name" and e.func == fq and e.loops]
+    mids = []
+    for e in cands:
+        c = A2.C.canon(e.data["value"])
+        if c.op == "rat":
+            rat = c.args[2].rat
+            if rat.den.is_const() and len(rat.num.terms) == 2 and all(v == Fraction(1, 2) * rat.den.const_value() for v in rat.num.terms.values()):
+                mids.append(e)
+    ctx.ob("R04.5", fq, mids[0].node if mids else None, bool(mids), "thresholds are midpoints between consecutive distinct scores",
            construct="midpoint thresholds")
